@@ -11,6 +11,12 @@ func TestCheckValues(t *testing.T) {
 	if v := CRC64(0, []byte("123456789")); v != 0xe9c6d914c4b8d9ca {
 		t.Fatalf("crc64 check value %x", v)
 	}
+	if v := CRC64Bitwise(0, []byte("123456789")); v != 0xe9c6d914c4b8d9ca {
+		t.Fatalf("crc64 bitwise check value %x", v)
+	}
+	if a, b := CRC64(0x1234, []byte("hello, world \x00\xff")), CRC64Bitwise(0x1234, []byte("hello, world \x00\xff")); a != b {
+		t.Fatalf("table %x bitwise %x", a, b)
+	}
 	if v := CRC16([]byte("123456789")); v != 0x31C3 {
 		t.Fatalf("crc16 check value %x", v)
 	}
